@@ -1,6 +1,6 @@
 (* C19 - c-revision: compilations agree; the constraint system characterises acceptance by the revised ranking. *)
-From InfOCF Require Import Core Tol Form Model Crev ThmCrev ThmCrevInc PyLib PyInt TieCrev TieCrevCsp TieCrevFast.
-From InfOCFGen Require Import SrcOcfCustom SrcCrev.
+From InfOCF Require Import Core Tol Form Model Crev ThmCrev ThmCrevInc PyLib PyInt TieCrev TieCrevCsp TieCrevFast TieCrevM.
+From InfOCFGen Require Import SrcOcfCustom SrcCrev SrcCrevM.
 From Coq Require Import ZArith.
 
 (* the literal bit-mask path of the fast / incremental compilation classifies worlds like the general path *)
@@ -102,6 +102,27 @@ Theorem C19_source_revision_chain : forall n rank_world pr,
 Proof. exact src_fast_chain. Qed.
 Print Assumptions C19_source_revision_chain.
 
+(* The incremental model is GENERATED too (inference/c_revision_model.py: add_conditional, remove_conditional, to_compilation with
+   _extract_cond_masks; the attributes they write are passed in and returned).  After ANY sequence of additions and removals (a
+   refused addition raises before anything is written) the object's state - registry, masks, per-world accepted / rejected index
+   sets - is exactly the representation of the model state Crev.cm_step reaches, the invariant cinv holds of it ... *)
+Theorem C19_source_incremental_state : forall n pr, NoDup (map fst pr) -> (forall p, In p pr -> In (fst p) (worlds n)) ->
+  forall rf ops, Forall (op_ok n) ops ->
+  fold_left (py_cm_step n pr rf) ops (state_of pr (cm_empty pr)) = state_of pr (fold_left (cm_step pr) ops (cm_empty pr)) /\
+  cinv pr (fold_left (cm_step pr) ops (cm_empty pr)).
+Proof. exact src_incremental_run. Qed.
+Print Assumptions C19_source_incremental_state.
+(* ... and to_compilation on that state returns the model's compilation of it, which C19_incremental_equals_fresh identifies (index
+   lists compared sorted) with the reference compilation of the conditionals currently registered *)
+Theorem C19_source_incremental_compilation : forall n pr, NoDup (map fst pr) -> (forall p, In p pr -> In (fst p) (worlds n)) ->
+  forall rf ops rank_world, Forall (op_ok n) ops -> (forall p, In p pr -> rank_world (fst p) = Return (Z.of_nat (snd p))) ->
+  let m := fold_left (cm_step pr) ops (cm_empty pr) in
+  let '(cd, _, wa, wr) := fold_left (py_cm_step n pr rf) ops (state_of pr (cm_empty pr)) in
+  exists cache', py_CRevisionModel_to_compilation n rank_world cd (map fst pr) wa wr rf []
+                 = Return (zcomp (fst (cm_compile pr m)), zcomp (snd (cm_compile pr m)), cache').
+Proof. exact src_incremental_compile. Qed.
+Print Assumptions C19_source_incremental_compilation.
+
 Definition pr2 : prior := [([false;false],0);([false;true],1);([true;false],0);([true;true],1)].
 Definition c1 := {| ckey := 4; ccons := FVar 1; cante := FVar 0 |}.
 Definition c2 := {| ckey := 9; ccons := FNot (FVar 1); cante := FTop |}.
@@ -124,3 +145,8 @@ Example crev_fast_source_example :
   = Return (zcomp (fst (compile_fast [c1;c2] pr2)), zcomp (snd (compile_fast [c1;c2] pr2)))
   /\ mask_of c1 = Some (0, true, 1, true) /\ mask_of c2 = None.
 Proof. vm_compute. repeat split. Qed.
+Example crev_incremental_source_example :
+  let S := fold_left (py_cm_step 2 pr2 (zprior pr2, sig_n 2)) [CAdd c1; CAdd c2; CRemove 4; CAdd c1] (state_of pr2 (cm_empty pr2)) in
+  S = state_of pr2 (fold_left (cm_step pr2) [CAdd c1; CAdd c2; CRemove 4; CAdd c1] (cm_empty pr2))
+  /\ map fst (fst (fst (fst S))) = [9; 4]%Z.
+Proof. vm_compute. split; reflexivity. Qed.
